@@ -77,7 +77,7 @@ def snapshot(d):
         enc = p.parameter_type.encoding
         dump.append((name, p.parameter_type.name, type(enc).__name__,
                      sorted((k, repr(v)) for k, v in vars(enc).items() if not callable(v))))
-    return xml, repr(dump)
+    return xml, repr(dump), getattr(d, "root_container_name", None)
 
 
 def extra(rng, tier):
@@ -98,16 +98,21 @@ def extra(rng, tier):
             streams.append(b"".join(pkts))
         opts = dict(parse_bad_pkts=rng.random() < 0.5, yield_unrecognized_packet_errors=rng.random() < 0.7)
         before = snapshot(d)
+        # every generator may be given its own root container (None = the definition's default)
+        names = [c["name"] for c in doc["containers"]]
+        roots = [rng.choice(names) if rng.random() < 0.4 else None for _ in streams]
 
-        def solo(s):
+        def solo(s, root):
+            # the reference run uses a definition object of its own: nothing can leak into it
+            dref = docs.definition_py(doc)
             with warnings.catch_warnings():
                 warnings.simplefilter("ignore")
-                return [genrun.item_out(x, set()) for x in itertools.islice(d.packet_generator(io.BytesIO(s), **opts), 50)]
+                return [genrun.item_out(x, set()) for x in itertools.islice(dref.packet_generator(io.BytesIO(s), root_container_name=root, **opts), 50)]
         try:
-            solos = [solo(s) for s in streams]
+            solos = [solo(s, r) for s, r in zip(streams, roots)]
         except Exception:  # noqa: BLE001   (a fatal decoding error: not a C11 input)
             continue
-        gens = [d.packet_generator(io.BytesIO(s), **opts) for s in streams]
+        gens = [d.packet_generator(io.BytesIO(s), root_container_name=r, **opts) for s, r in zip(streams, roots)]
         got = [[] for _ in streams]
         alive = list(range(len(streams)))
         sched = []
@@ -120,6 +125,9 @@ def extra(rng, tier):
                     got[i].append(genrun.item_out(next(gens[i]), set()))
                 except StopIteration:
                     alive.remove(i)
+                except Exception as e:  # noqa: BLE001  (the solo run did not raise: this is a difference)
+                    got[i].append(["raised", type(e).__name__])
+                    alive.remove(i)
         res["evaluations"] += 1
         res["interleavings"] += 1
         after = snapshot(d)
@@ -129,7 +137,7 @@ def extra(rng, tier):
                 if x[0] == 0:
                     x[3] = False     # the warning flag is not observed in this run
         if got != solos:
-            res["violations"].append({"input": {"interleaving": True, "doc": doc, "streams": [s.hex() for s in streams], "schedule": sched},
+            res["violations"].append({"input": {"interleaving": True, "doc": doc, "streams": [s.hex() for s in streams], "schedule": sched, "roots": roots},
                                       "impl": "interleaved outputs differ from solo outputs"})
         if before != after:
             res["violations"].append({"input": {"definition_modified": True, "doc": doc, "streams": [s.hex() for s in streams]},
